@@ -25,12 +25,18 @@ fn exec_line(line: &str) -> String {
         exec_iter::run_case(line)
     } else if line.starts_with("W ") {
         exec_write::run_case(line)
-    } else if line.starts_with("X ") || line.starts_with("Y ") {
+    } else if line.starts_with("X ") || line.starts_with("Y ") || line.starts_with("Z ") {
         if HANGS.load(std::sync::atomic::Ordering::SeqCst) >= 3 {
             return "- SKIPPED".to_string();
         }
         let before = exec_parallel::thread_count();
-        let r = if line.starts_with("X ") { exec_parallel::run_x(line) } else { exec_parallel::run_y(line) };
+        let r = if line.starts_with("X ") {
+            exec_parallel::run_x(line)
+        } else if line.starts_with("Y ") {
+            exec_parallel::run_y(line)
+        } else {
+            exec_parallel::run_z(line)
+        };
         if r.contains("HANG") {
             HANGS.fetch_add(1, std::sync::atomic::Ordering::SeqCst);
             // the hung call keeps its threads: a census would only repeat that
